@@ -17,7 +17,9 @@ use hickory_net::udp::UdpClientStream;
 use hickory_net::xfer::DnsRequestSender;
 use hickory_net::DnsHandle;
 use hickory_proto::op::{DnsRequest, DnsRequestOptions, Message, MessageType, OpCode, Query};
+use hickory_proto::rr::rdata::tsig::TsigAlgorithm;
 use hickory_proto::rr::rdata::TXT;
+use hickory_proto::rr::TSigner;
 use hickory_proto::rr::{DNSClass, Name, RData, Record, RecordType};
 
 use super::vtime::{self, VTime};
@@ -50,6 +52,8 @@ pub enum Bind {
     Denied(u32),
     /// an error of another kind
     Other,
+    /// the bind future is not ready at once (pending once, then success)
+    Slow,
 }
 
 #[derive(Clone, Copy, Debug, PartialEq, Eq)]
@@ -92,6 +96,9 @@ pub struct UdpCase {
     pub via_exchange: bool,
     /// the request carries a record that cannot be encoded (`request.to_vec()` fails)
     pub unencodable: bool,
+    /// `with_signer(Some(..))`: requests with an AXFR / IXFR question go out TSIG-signed and the reply
+    /// is verified; the scripted datagrams are never signed
+    pub signer: bool,
     pub qs: Vec<Q>,
     pub scripts: Vec<Vec<Ev>>,
     /// per transmission (missing = all fine)
@@ -185,7 +192,7 @@ fn parse_ev(s: &str) -> Option<Ev> {
 
 pub fn case_line(c: &UdpCase) -> String {
     let mut s = format!(
-        "udp {} {} {} {} {} {} {}{}{}{} {}",
+        "udp {} {} {} {} {} {} {}{}{}{}{} {}",
         c.timeout,
         c.retry_interval,
         c.floor,
@@ -196,6 +203,7 @@ pub fn case_line(c: &UdpCase) -> String {
         c.ctor,
         if c.via_exchange { "x" } else { "" },
         if c.unencodable { "e" } else { "" },
+        if c.signer { "s" } else { "" },
         qs_tok(&c.qs)
     );
     for (t, sc) in c.scripts.iter().enumerate() {
@@ -208,6 +216,7 @@ pub fn case_line(c: &UdpCase) -> String {
                     Bind::InUse(n) => format!("inuse{n}"),
                     Bind::Denied(n) => format!("denied{n}"),
                     Bind::Other => "other".to_string(),
+                    Bind::Slow => "slow".to_string(),
                 },
                 match su.send {
                     SendMode::Ok => "ok",
@@ -243,6 +252,8 @@ pub fn parse_case(t: &[&str]) -> Option<UdpCase> {
                 Bind::Ok
             } else if bd == "other" {
                 Bind::Other
+            } else if bd == "slow" {
+                Bind::Slow
             } else if let Some(n) = bd.strip_prefix("inuse") {
                 Bind::InUse(n.parse().ok()?)
             } else if let Some(n) = bd.strip_prefix("denied") {
@@ -263,12 +274,13 @@ pub fn parse_case(t: &[&str]) -> Option<UdpCase> {
     }
     let flags = &t[7][1..];
     let mut ctor = 'o';
-    let (mut via_exchange, mut unencodable) = (false, false);
+    let (mut via_exchange, mut unencodable, mut signer) = (false, false, false);
     for ch in flags.chars() {
         match ch {
             'n' | 'o' | 'm' | 'f' => ctor = ch,
             'x' => via_exchange = true,
             'e' => unencodable = true,
+            's' => signer = true,
             _ => return None,
         }
     }
@@ -283,6 +295,7 @@ pub fn parse_case(t: &[&str]) -> Option<UdpCase> {
         ctor,
         via_exchange,
         unencodable,
+        signer,
         qs: parse_qs(t[8])?,
         scripts,
         setups,
@@ -493,7 +506,15 @@ impl RuntimeProvider for ScriptedProvider {
             s.send_mode = Some(su.send);
             s.bound = Some(local_addr);
         }
-        Box::pin(async move { Ok(ScriptedUdp(st)) })
+        let mut slow = su.bind == Bind::Slow;
+        Box::pin(std::future::poll_fn(move |cx| {
+            if slow {
+                slow = false;
+                cx.waker().wake_by_ref();
+                return Poll::Pending;
+            }
+            Poll::Ready(Ok(ScriptedUdp(st.clone())))
+        }))
     }
 }
 
@@ -523,7 +544,7 @@ pub struct UdpRun {
 /// stays as it is: 0 = none, 1 = `with_bind_addr(port 4444)`, 2 = `with_os_port_selection(true)`,
 /// 3 = `avoid_local_ports(all but 5000..=5063)`
 pub fn builder_variant(c: &UdpCase) -> u16 {
-    if c.setups.iter().any(|s| s.bind != Bind::Ok) {
+    if c.setups.iter().any(|s| !matches!(s.bind, Bind::Ok | Bind::Slow)) {
         return 0; // the bind retry budget is shared with avoided ports: keep the two apart
     }
     match c.id % 8 {
@@ -561,6 +582,10 @@ pub fn dgram_bytes(t: usize, j: usize, e: &Ev) -> Option<(Vec<u8>, SocketAddr)> 
             *src,
         )),
     }
+}
+
+pub fn test_signer() -> TSigner {
+    TSigner::new(b"0123456789abcdef0123456789abcdef".to_vec(), TsigAlgorithm::HmacSha256, Name::from_ascii("key.test.").unwrap(), 300).unwrap()
 }
 
 pub fn unencodable_record() -> Record {
@@ -691,6 +716,9 @@ pub fn run_case(c: &UdpCase, req: DnsRequest) -> Option<UdpRun> {
         .with_timeout(Some(Duration::from_millis(c.timeout)))
         .with_max_retries(c.max_retries)
         .with_retry_interval_floor(c.floor);
+    if c.signer {
+        builder = builder.with_signer(Some(test_signer()));
+    }
     builder = match variant {
         1 => builder.with_bind_addr(Some(fixed_bind_addr(&c.server))),
         2 => builder.with_os_port_selection(true),
